@@ -1,4 +1,7 @@
 mod common;
+mod data;
+mod numx;
+mod palette;
 mod props;
 use common::*;
 use std::time::Instant;
@@ -40,6 +43,9 @@ fn main() {
     let prop = prop.unwrap_or_else(|| usage());
     let mk = |p: &'static str| Ctx { prop: p, tier, seed, start: Instant::now() };
     let code = match prop.as_str() {
+        "C10" => props::c10::run(&mk("C10")),
+        "C11" => props::c11::run(&mk("C11")),
+        "C16" => props::c16::run(&mk("C16")),
         "C20" => props::c20::run(&mk("C20")),
         _ => {
             eprintln!("unknown property {}", prop);
